@@ -132,6 +132,37 @@ func Run(out string) {
 		}
 	}
 
+	// (2b) SetResponse on a response the handler has already touched: after preparing it through Message() (how = 1) and after an
+	// earlier SetResponse that was accepted (how = 2: a 2.05 first unless 2.xx is suppressed, then a 4.00, then a 5.00)
+	for _, v := range values(thorough) {
+		for how := 1; how <= 2; how++ {
+			for c := 0; c < 256; c++ {
+				resp := pool.NewMessage(nil)
+				resp.SetCode(codes.Code(0))
+				resp.SetModified(false)
+				ro := []message.Option{{ID: message.URIPath, Value: []byte("a")}, {ID: message.NoResponse, Value: encUint(v)}}
+				rw := responsewriter.New(resp, nopClient{}, ro...)
+				first := 0
+				if how == 1 {
+					rw.Message().SetOptionUint32(message.MaxAge, 30)
+				} else {
+					for _, f := range []int{69, 128, 160} {
+						if rw.SetResponse(codes.Code(f), message.TextPlain, bytes.NewReader([]byte("y"))) == nil {
+							first = f
+							break
+						}
+					}
+					if first == 0 {
+						continue // every class is suppressed: there is no accepted first response
+					}
+				}
+				err := rw.SetResponse(codes.Code(c), message.TextPlain, bytes.NewReader([]byte("x")))
+				after := int(rw.Message().Code())
+				w.Put(map[string]any{"op": "setagain", "how": how, "first": first, "vhi": int(v >> 16), "vlo": int(v & 0xffff), "code": c, "refused": err != nil, "codeAfter": after})
+			}
+		}
+	}
+
 	// (3) wire level
 	wcodes := []int{65, 66, 67, 68, 69, 95, 128, 132, 136, 137, 150, 157, 159, 160, 165, 168, 191, 192, 224, 255}
 	if thorough {
